@@ -14,6 +14,7 @@ from .Parser import Number              # any length number
 from .Parser import String              # any length string
 from .Parser import Filler              # Fillers are for checking if correct
 #                                         syntanx are given. Are not recorded.
+from .Parser import EOS                 # end of the input
 """
 This file contains Abstract Syntax Tree of the RING input. Parser grabs the
 tree info from here, and interpret string.
@@ -31,7 +32,7 @@ Rangarajan, S., Bhan, A., and Daoutidis, P.,
     10.1016/j.compchemeng.2012.06.008
 """
 strict_grammar = ('RINGInput', {
-    'RINGInput': Either('Fragment', 'ReactionRule'),
+    'RINGInput': All(Either('Fragment', 'ReactionRule'), EOS()),
     'Fragment': All('Prefix', Filler('fragment'), 'FragmentName',
                     Filler('{'), 'MolQuery', Filler('}')),
     'FragmentName': String(),
